@@ -146,3 +146,44 @@ def filterseq_truth(I, o):
     ctx.assume_forall([i], z3.Implies(z3.And(0 <= i, i < n), z3.Not(inc)), 'filtered list empty')
     o.fields['witness'] = False
     return False
+
+
+def while_rule(name, state_at, check_inv, variant=None):
+    """while-loop rule with an inductive invariant and (optionally) a termination variant.
+    state_at(I, env, tag) havocs the loop-carried state and assumes the invariant;
+    check_inv(I, env) -> [(label, formula)] evaluated on the actual state;
+    variant(I, env) -> Int term that must be >= 0 whenever the loop condition holds and strictly decrease per iteration."""
+    def handler(I, node, env):
+        ctx = I.ctx
+        for label, f in check_inv(I, env):
+            ctx.oblige('while[%s]-invariant-holds-on-entry: %s' % (name, label), f)
+        which = ctx.choose([True, True], 'while')
+        if which == 0:
+            state_at(I, env, 'it')
+            if not I.truth(I.eval(node.test, env)):
+                raise_abort()
+            v0 = variant(I, env) if variant is not None else None
+            if v0 is not None:
+                ctx.oblige('while[%s]-variant-bounded-below (the loop cannot run forever)' % name, v0 >= 0)
+            try:
+                I.exec_block(node.body, env)
+            except _Continue:
+                pass
+            except _Break:
+                raise Unsupported('break inside a while loop verified by invariant')
+            for label, f in check_inv(I, env):
+                ctx.oblige('while[%s]-invariant-preserved: %s' % (name, label), f)
+            if v0 is not None:
+                ctx.oblige('while[%s]-variant-decreases' % name, variant(I, env) < v0)
+            raise PathDone()
+        state_at(I, env, 'exit')
+        if I.truth(I.eval(node.test, env)):
+            raise_abort()
+        I.exec_block(node.orelse, env)
+        return None
+    return handler
+
+
+def raise_abort():
+    from .engine import PathAbort
+    raise PathAbort()
